@@ -98,8 +98,12 @@ class Check:
         self.fail(rule, key, at, what or "canonical form of the code differs from the documented formula", code=_short(code, 4000), ref=_short(ref, 4000), config=config)
         return False
 
-    def floor(self, name, found, expected_min):
-        self.floors[name] = {"found": found, "expected_min": expected_min}
+    def floor(self, name, found, confirmed):
+        """vacuity guard: `confirmed` is the count established by reading the code when the rule was written.  A rule
+        whose anchors vanished collapses to (nearly) nothing; a refactoring that merges two call sites or drops one
+        row must not stop the analysis - hence the threshold is 60 % of the confirmed count, at least 1."""
+        expected_min = max(1, (confirmed * 6) // 10)
+        self.floors[name] = {"found": found, "confirmed_when_written": confirmed, "expected_min": expected_min}
         if found < expected_min and not self.violations:
             # (with violations already recorded the shortfall is explained by them: rows that raised are not counted)
             raise AnalysisBroken(f"floor '{name}': found {found} < expected minimum {expected_min} (anchor vanished or enumeration broken)")
@@ -312,6 +316,7 @@ def generic_decide(cond, node, file, fn):
 def new_interp(repo, parity=0, stub_etdrk=True, decide=generic_decide, extra_parity=None):
     ctx = Ctx()
     ctx.parity[("s", "N")] = parity
+    alg.N_PARITY[0] = parity  # comparisons of wavenumbers with bounds use the largest stored wavenumber (N - parity)/2
     for a, p in (extra_parity or {}).items():
         ctx.parity[a] = p
     ctx.decide = decide
